@@ -118,7 +118,9 @@ class Engine(object):
         resp = Obj(Response, {'kind': 'engine-response'}, 'response')
         m = fresh("max_response_size")
         P.assume(m >= 0)
-        return (resp, SOpt(fresh("no_max", z3.BoolSort()), SInt(m)), Opaque('object', 'protocol_version'))
+        nomax = fresh("no_max", z3.BoolSort())
+        P.event('engine.max', nomax, m)
+        return (resp, SOpt(nomax, SInt(m)), Opaque('object', 'protocol_version'))
 
     @model
     def build_error_response(I, args, kw):
@@ -145,7 +147,7 @@ class Response(object):
         cur = stream.fields.get('buffer', b'')
         from .sym import seq_concat
         stream.fields['buffer'] = seq_concat(cur, SSeq('bytes', [('s', t)], frozenset(['wire'])))
-        P.event('response.write', self.fields.get('kind'), self.fields.get('reason'), t.get_id())
+        P.event('response.write', self.fields.get('kind'), self.fields.get('reason'), t)
         self.fields['encoded_as'] = t.get_id()
         return None
 
